@@ -3759,8 +3759,12 @@ fn create_joined_batch(
             .iter()
             .map(|col| {
                 if dict_encode && col.data_type() == &arrow::datatypes::DataType::Utf8 {
-                    let keys: arrow::array::Int32Array =
-                        take_arr.iter().map(|v| v.map(|u| u as i32)).collect();
+                    // a NULL build value must be a NULL KEY: consumers count / test NULLs on the
+                    // dictionary's keys (`null_count()`), not on its values
+                    let keys: arrow::array::Int32Array = take_arr
+                        .iter()
+                        .map(|v| v.filter(|&u| col.is_valid(u as usize)).map(|u| u as i32))
+                        .collect();
                     arrow::array::DictionaryArray::try_new(keys, col.clone())
                         .map(|d| std::sync::Arc::new(d) as ArrayRef)
                         .map_err(Into::into)
@@ -3886,8 +3890,12 @@ fn create_joined_batch_u32(
             .iter()
             .map(|col| {
                 if dict_encode && col.data_type() == &arrow::datatypes::DataType::Utf8 {
-                    let keys: arrow::array::Int32Array =
-                        take_arr.iter().map(|v| v.map(|u| u as i32)).collect();
+                    // a NULL build value must be a NULL KEY: consumers count / test NULLs on the
+                    // dictionary's keys (`null_count()`), not on its values
+                    let keys: arrow::array::Int32Array = take_arr
+                        .iter()
+                        .map(|v| v.filter(|&u| col.is_valid(u as usize)).map(|u| u as i32))
+                        .collect();
                     arrow::array::DictionaryArray::try_new(keys, col.clone())
                         .map(|d| std::sync::Arc::new(d) as ArrayRef)
                         .map_err(Into::into)
@@ -4021,8 +4029,12 @@ fn create_build_only_batch(
             .iter()
             .map(|col| {
                 if dict_encode && col.data_type() == &arrow::datatypes::DataType::Utf8 {
-                    let keys: arrow::array::Int32Array =
-                        take_arr.iter().map(|v| v.map(|u| u as i32)).collect();
+                    // a NULL build value must be a NULL KEY: consumers count / test NULLs on the
+                    // dictionary's keys (`null_count()`), not on its values
+                    let keys: arrow::array::Int32Array = take_arr
+                        .iter()
+                        .map(|v| v.filter(|&u| col.is_valid(u as usize)).map(|u| u as i32))
+                        .collect();
                     arrow::array::DictionaryArray::try_new(keys, col.clone())
                         .map(|d| std::sync::Arc::new(d) as ArrayRef)
                         .map_err(Into::into)
